@@ -232,8 +232,7 @@ def space(tier, seed):
     gs = [dict(g, tables=[tuple([2] * g['n']), tuple((1, 2, 5)[i % 3] for i in range(g['n'])),
                           tuple((10, 5, 1, 2)[i % 4] for i in range(g['n']))])
           for g in family_graphs(tier)]
-    for h in range(1 << 6):
-        gs.append({'n': 3, 'loops': False, 'h': h, 'decoy': True, 'tables': [(2, 2, 2), (10, 1, 5)]})
+    gs = [{'n': 3, 'loops': False, 'h': h, 'decoy': True, 'tables': [(2, 2, 2), (10, 1, 5)]} for h in range(1, 1 << 6)] + gs
     for n in (1, 2, 3):
         for h in range(1 << (n * n)):
             gs.append({'n': n, 'loops': True, 'h': h, 'tables': tables_for(n, tier, seed)})
